@@ -61,7 +61,15 @@ Section Keys.
   Proof. pose proof ND as N. rewrite Ef in N. cbn [map fst] in N. inversion N; assumption. Qed.
 
   Lemma sub_cases x : sub_of f x <-> sub_of f' x \/ (exists tv, rv = Some tv /\ subtree x tv).
-  Proof. rewrite Ef. exact (sub_fc_cases v rv rn f'' x). Qed.
+  Proof.
+    rewrite Ef. split.
+    - intros (w & t & [Q|I] & S).
+      + inversion Q; subst. right. eauto.
+      + left. exists w, t. auto.
+    - intros [(w & t & I & S)|(tv & -> & S)].
+      + exists w, t. split; [right; exact I|exact S].
+      + exists v, tv. split; [left; reflexivity|exact S].
+  Qed.
 
   Lemma above w rt : In (w, rt) f' -> v < w.
   Proof. exact (f'_above v rv rn f'' Hz w rt). Qed.
@@ -91,7 +99,8 @@ Section Keys.
             (nodes_of tv)) <->
     exists u, subtree u tv /\ ~ inn rn u /\ p = (node_key u, snode_of u).
   Proof.
-    intros Erv. rewrite filter_In, Bool.negb_true_iff, mhas_false_notin. split.
+    intros Erv. pose proof In_v as Iv0. pose proof In_v1 as Iv1.
+    rewrite filter_In, Bool.negb_true_iff, mhas_false_notin. split.
     - intros [I N]. destruct p as [k sn]. apply nodes_of_In in I. destruct I as (u & Su & -> & ->).
       exists u. split; [exact Su|]. split; [|reflexivity].
       intros (tn & Ern & Sn). apply N. rewrite Ern. cbn [fst]. apply in_map_iff.
@@ -101,9 +110,9 @@ Section Keys.
       apply in_map_iff in I. destruct I as ([k sn] & Ek & I). cbn [fst] in Ek. subst k.
       apply nodes_of_In in I. destruct I as (u' & Su' & Ku & _).
       assert (u = u').
-      { apply (fi_coh f FI); [|exact Ku].
-        - exists v, tv. split; [rewrite <- Erv; exact In_v|exact Su].
-        - exists (v + 1), tn. split; [exact In_v1|exact Su']. }
+      { apply (fi_coh f FI); [| |exact Ku].
+        - exists v, tv. split; [rewrite <- Erv; exact Iv0|exact Su].
+        - exists (v + 1), tn. split; [exact Iv1|exact Su']. }
       subst u'. exists tn. auto.
   Qed.
 
@@ -131,9 +140,9 @@ Section Keys.
                    (k = node_key u \/ (nonce (nmeta u) = 1 /\ ver (nmeta u) < v /\ k = (ver (nmeta u), 0)))).
     { unfold del_keys. rewrite in_flat_map. split.
       - intros (o & Io & Ik). apply in_flat_map in Io. destruct Io as (p & Ip & Io).
-        unfold orph in Ip. destruct rv as [tv|] eqn:Erv; [|contradiction].
-        apply (spec_orphans tv p eq_refl) in Ip. destruct Ip as (u & Su & Nu & ->).
-        exists tv, u. split; [reflexivity|]. split; [exact Su|]. split; [exact Nu|].
+        unfold orph in Ip. destruct (opt_cases rv) as [(tv & Erv)|Erv]; rewrite Erv in Ip; [|contradiction].
+        apply (spec_orphans tv p Erv) in Ip. destruct Ip as (u & Su & Nu & ->).
+        exists tv, u. split; [exact Erv|]. split; [exact Su|]. split; [exact Nu|].
         cbv zeta in Io. cbn [fst snd node_key] in Io.
         destruct ((nonce (nmeta u) =? 1) && (ver (nmeta u) <? v)) eqn:T.
         + apply andb_prop in T. destruct T as [T1 T2]. apply Z.eqb_eq in T1. apply Z.ltb_lt in T2.
@@ -195,24 +204,17 @@ Section Keys.
       + apply sub_cases in Su. destruct Su as [Su'|(tv & Erv & Su)].
         * right. right. exact (Live u Su' Ab).
         * destruct (insub rn u) eqn:Iu.
-          -- apply insub_true in Iu. right. right. exact (Live u (HS_v v rn f'' u Iu) Ab).
+          -- apply insub_true in Iu. right. right. exact (Live u (HS_v f v rv rn f'' [] Suf Hz u Iu) Ab).
           -- left. exists tv, u. split; [exact Erv|]. split; [exact Su|]. split.
              ++ intros C. apply insub_true in C. congruence.
              ++ destruct (pkey_cases r u) as [(N1 & Ir & K)|(_ & K)]; rewrite K.
                 ** right. split; [exact N1|]. split; [exact (r_below _ Ir)|reflexivity].
                 ** left. reflexivity.
       + (* a root entry: only that of version v disappears *)
-        destruct I as [Q|I'].
-        * rewrite Ef in Q.
-          assert (Q' : (w, rt) = (v, rv) \/ In (w, rt) f') by (destruct Q as [Q|Q]; [left; symmetry; exact Q|right; exact Q]).
-          destruct Q' as [Q'|I'].
-          -- inversion Q'; subst w rt. destruct (root_entry_Some _ _ _ _ Er) as [-> _].
-             right. left. split; [eauto|reflexivity].
-          -- exfalso. assert (F' : mfind kcmp k (phys_of r' f') = Some e); [|congruence].
-             apply P'. right. exists w, rt. auto.
-        * exfalso. rewrite Ef in I'. cbn [In] in I'.
-          assert (I'' : In (w, rt) f') by exact I'.
-          assert (F' : mfind kcmp k (phys_of r' f') = Some e); [|congruence].
+        rewrite Ef in I. destruct I as [Q|I'].
+        * inversion Q; subst w rt. destruct (root_entry_Some _ _ _ _ Er) as [-> _].
+          right. left. split; [eauto|reflexivity].
+        * exfalso. assert (F' : mfind kcmp k (phys_of r' f') = Some e); [|congruence].
           apply P'. right. exists w, rt. auto.
     - (* deleted by the specification and present -> disappeared *)
       intros [D Pr]. split; [exact Pr|].
